@@ -187,11 +187,14 @@ def _slow_reader(index_map, data):
     for coord in ProgressBar(indices):
         coord = tuple(coord)
         idx = index_map[coord]
+        # Python scalars, as in a computed dendrogram (and in _fast_reader):
+        # arithmetic on scalars of a narrow integer type wraps around
+        value = data[coord].item()
         if idx in flux_by_structure:
-            flux_by_structure[idx].append(data[coord])
+            flux_by_structure[idx].append(value)
             indices_by_structure[idx].append(coord)
         else:
-            flux_by_structure[idx] = [data[coord]]
+            flux_by_structure[idx] = [value]
             indices_by_structure[idx] = [coord]
 
     return flux_by_structure, indices_by_structure
